@@ -1,26 +1,22 @@
-(* C12: runCommentRules AS TRANSLATED FROM THE SOURCE (Gen_C12Loop), instantiated on CommentSpec's rules, nodes and match
-   data. Definitions only: the executed model of the correspondence runs uses gen_run_comment_rules whether or not the
-   proofs of Inst_CommentLoop.v still go through. *)
+(* C12: runCommentRules AS TRANSLATED FROM THE SOURCE (Gen_C12Loop) calling handleCommentMatch AS TRANSLATED FROM THE SOURCE
+   (Gen_C12Handler via Def_CommentHandler), instantiated on CommentSpec's rules, nodes and match data; the world is the
+   reused report record, the filter parameters' match and what the Report callback saw (CommentHandler.mworld).
+   Definitions only: the executed model of the correspondence runs uses gen_run_comment_rules whether or not the proofs of
+   Inst_CommentLoop.v still go through. *)
 From Coq Require Import List ZArith Lia Bool Arith.
 From RG.Base Require Import Outcome GoInt GoSlice.
 From RG.Regex Require Import Utf8.
-From RG.Engine Require Import TruncateSpec RenderSpec RenderLoop CommentSpec CommentLoop.
-From RGW Require Import Gen_C12Loop.
+From RG.Engine Require Import TruncateSpec RenderSpec RenderLoop CommentSpec CommentLoop CommentHandler.
+From RGW Require Import Gen_C12Loop Gen_C12Handler Def_CommentHandler.
 Import ListNotations.
 Local Open Scope Z_scope.
-
-(* handleCommentMatch: the model's handler; a report is delivered to the world (the list of reports so far) *)
-Definition gen_handle (re_match : bytes -> bytes -> option bool) (l : Z) (src : bytes)
-           (r : crule * option (list Z)) (m : mdata) (w : list mreport) : outcome (bool * list mreport) :=
-  bind (handle re_match l src (fst r) m) (fun out =>
-  match out with Some rep => Ok (true, w ++ [rep]) | None => Ok (false, w) end).
 
 (* a rule comes with the regexp oracle's answer on comment.Text (FindStringIndex = the first pair of it); token.Pos values
    are base-of-file + offset; a comment node is built together with the text nodeText yields for it *)
 Definition gen_run_comment_rules (in_range : Z -> Z -> bytes -> outcome bool) (re_match : bytes -> bytes -> option bool)
            (l : Z) (src : bytes) (off : Z) (text : bytes) (base : Z)
-           (rules : list (crule * option (list Z))) (w : list mreport) : outcome (list mreport) :=
-  gen_runCommentRules (R := crule * option (list Z)) (N := mnode) (M := mdata) (W := list mreport)
+           (rules : list (crule * option (list Z))) (w : mworld) : outcome mworld :=
+  gen_runCommentRules (R := crule * option (list Z)) (N := mnode) (M := mdata) (W := mworld)
     (fun _ => base)
     (fun r => c_groups (fst r))
     (fun r _ => snd r)
@@ -28,5 +24,15 @@ Definition gen_run_comment_rules (in_range : Z -> Z -> bytes -> outcome bool) (r
     (fun r => c_names (fst r))
     (fun p t => comment_node in_range src (p - base) t)
     md_zero md_add md_set
-    (gen_handle re_match l src)
+    (fun r m w0 => gen_handle_w re_match l src (fst r) m w0)
     rules (base + off) text w.
+
+(* the callback's view of a run: the reports delivered, read back from the snapshots (None = not a comment-rule report:
+   nil node or a Func left in the record) *)
+Definition reports_of (w : mworld) : list (option mreport) := map report_of (delivered w).
+
+(* a world whose reused record is full of what an earlier report may have left *)
+Definition stale_world : mworld :=
+  {| rd_RuleInfo := 424242; rd_Node := Some {| n_pos := 1; n_end := 2; n_text := [115]; n_fix := false |}; rd_Message := [115; 116; 97; 108; 101];
+     rd_Suggestion := Some (1, 2, [115; 116; 97; 108; 101]); rd_Func := Some tt; fp_match := {| md_caps := [([118], {| n_pos := 0; n_end := 0; n_text := [120]; n_fix := false |})]; md_node := None |};
+     delivered := [] |}.
